@@ -32,7 +32,8 @@ MANIFEST = dict(
     text='Decides over all 3(+1) headers x 33 state-init shapes x body sizes at every inline/reference boundary x 0..4 body references that serialising never ends in a capacity error, that the cell is exactly a '
          '`Message Any` of block.tlb (decoded by an independent schema reading), that the package\'s parser returns the same header fields, state-init and body from it, and that the parser accepts both Either '
          'placements (typestate). The stand-alone wrappers (state-init, tick-tock, currencies, hash update, account status, wallet and NFT data) are checked the same way.'
-         ' The parsed message serialises again to the cell it was parsed from, and its state-init to the StateInit cell that was sent.',
+         ' The parsed message serialises again to the cell it was parsed from, and its state-init to the StateInit cell that was sent.'
+         ' The NFT wrappers keep anycast addresses as given (also when the other address is given as text); HighloadWalletData round-trips its old queries.',
     note='trusted: interpreter, bitarray model, TL-B lowering/decoder, bundled block.tlb (docstring schemas for wallet/NFT types). Addresses with anycast make headers longer than any encoding allows and are outside the enumerated space.',
     design_ref='DESIGN.md section 4 C15')
 
